@@ -10,9 +10,12 @@ import (
 
 // dmlPara writes one logical paragraph as a DrawingML <a:p> (§21.1.2.2.6):
 // text runs, <a:br/> for line breaks, the tab and symbol characters literally.
-func dmlPara(p *logical.Para) string {
+func dmlPara(p *logical.Para) string { return dmlParaPr(p, "") }
+
+// dmlParaPr: pPr is the complete <a:pPr …> element ("" = none).
+func dmlParaPr(p *logical.Para, pPr string) string {
 	var sb strings.Builder
-	sb.WriteString(`<a:p>`)
+	sb.WriteString(`<a:p>` + pPr)
 	for _, run := range p.Runs {
 		for _, it := range run.Items {
 			if it.Kind == logical.KBreak {
@@ -135,7 +138,12 @@ func WritePptx(d *logical.Doc, r *rand.Rand) []byte {
 			case logical.BList:
 				fmt.Fprintf(&raw, `<p:sp><p:nvSpPr><p:cNvPr id="%d" name="TextBox %d"/><p:cNvSpPr txBox="1"/><p:nvPr/></p:nvSpPr><p:spPr/><p:txBody><a:bodyPr/><a:lstStyle/>`, id, id)
 				for ii := range b.List.Items {
-					raw.WriteString(dmlPara(&b.List.Items[ii].Para))
+					it := &b.List.Items[ii]
+					bu := `<a:buChar char="&#8226;"/>`
+					if it.Level >= 0 && it.Level < len(b.List.Ordered) && b.List.Ordered[it.Level] {
+						bu = `<a:buAutoNum type="arabicPeriod"/>`
+					}
+					raw.WriteString(dmlParaPr(&it.Para, fmt.Sprintf(`<a:pPr marL="%d" indent="-285750" lvl="%d">%s</a:pPr>`, 285750*(it.Level+1), it.Level, bu)))
 				}
 				raw.WriteString(`</p:txBody></p:sp>`)
 			}
